@@ -595,7 +595,7 @@ def run(ctx, replay):
                        "{contiguous, strided, sub-range, matrix column, expression | the six dense layouts, 1..5 columns}, "
                        "SymmMatrix in both orientations {plain, submatrix_on_diagonal view, expression} with the unused triangle "
                        "poisoned, solve(SymmMatrix,SymmMatrix), inv of all of these; n = 1..%d; double and float; random integer "
-                       "matrices of several styles (dense, sparse, zero diagonal, diagonally dominant, wide range, permutation-like, "
+                       "matrices of several styles (dense, sparse, zero diagonal, diagonally dominant, wide range, permutation-like, unimodular L.D.U, rank-deficient plus a small perturbation, "
                        "triangular) with kappa_inf <= 1e6 computed exactly from the explicit rational inverse; exactly singular matrices "
                        "(low rank by construction, duplicated/zero rows, zero) in every form; non-square inv. non-trivial: n > 1; "
                        "distinct: different (build, op, layouts, sizes, matrix)" % (8 if ctx.tier == "quick" else 12))
